@@ -52,9 +52,11 @@ class Inst:
         self.decl = rec['decl']
         self.cfg = rec['cfg']
         self.feats = dict(rec['cfg']['features']) if rec['cfg'] else {}
-        nested = 'MOD' in (self.decl['vis'] or '')
+        nested = 'MOD' in (self.decl['vis'] or '') or self.decl.get('context') == 'fn'
         self.mod = '%s::%s' % (crate.name, self.id) + ('::inner' if nested else '')
         self.enum_path = self.mod + '::E'
+        # the module that private items are private to (a function body is not a module)
+        self.priv_mod = '%s::%s' % (crate.name, self.id) if self.decl.get('context') == 'fn' else self.mod
         sl = crate.by_module(self.mod)
         self.items = sl['items']
         self.adts = sl['adts']
